@@ -43,6 +43,17 @@ func NewHMACAuth(secrets [][]byte) *HMACAuth {
 	return a
 }
 
+// InheritReplayState makes a continue prev's record of seen nonces. It is used
+// when an authenticator is rebuilt for the same route (configuration reload),
+// so that replacing it does not reopen the replay window of requests that
+// were already accepted. It must be called before a is used.
+func (a *HMACAuth) InheritReplayState(prev *HMACAuth) {
+	if a == nil || prev == nil || prev.nonce == nil {
+		return
+	}
+	a.nonce = prev.nonce
+}
+
 // Verify checks:
 // - timestamp header is present and within tolerance
 // - nonce header is present and not reused within tolerance window
